@@ -62,6 +62,16 @@ func famShadow(r *rand.Rand, idx int) caseInput {
 	if !nested && r.Intn(3) == 0 {
 		e.emit("lw t4, 0(s2)")
 	}
+	// independent cache-missing loads ahead of the branch occupy execute units until shortly before the
+	// branch resolves, so that shadow instructions execute in the last cycles before the resolution
+	if r.Intn(2) == 0 {
+		for n := 1 + r.Intn(3); n > 0; n-- {
+			e.emit("lw a2, %d(zero)", 64*(20+r.Intn(8))+4*r.Intn(4))
+			for pad := r.Intn(7); pad > 0; pad-- {
+				e.emit("addi t4, zero, %d", r.Intn(100))
+			}
+		}
+	}
 	kind := r.Intn(10) // 0-6 conditional, 7 j, 8 jal, 9 jalr
 	shadowLen := 1 + r.Intn(6)
 	join := e.newLabel()
@@ -224,7 +234,7 @@ func famRegdep(r *rand.Rand, idx int) caseInput {
 		return pick(r, []string{"add", "sub", "xor", "or", "and", "mul", "slt", "sltu", "sll", "srl"})
 	}
 	for e.count < n {
-		switch r.Intn(9) {
+		switch r.Intn(12) {
 		case 0: // chain: each reads the previous result
 			l := 2 + r.Intn(10)
 			d := e.reg()
@@ -271,6 +281,21 @@ func famRegdep(r *rand.Rand, idx int) caseInput {
 			e.emit("lw %s, %d(%s)", e.reg(), 4*r.Intn(16), pick(r, e.ar))
 		case 7:
 			e.emit("mv %s, %s", e.reg(), e.reg())
+		case 8, 9:
+			// a reader parked behind a missing load, then a younger writer of the register it still has to
+			// read (WAR) or of its destination (WAW); the writer itself depends on a just-dispatched producer
+			x, rd, sreg, pr := e.reg(), e.reg(), e.reg(), e.reg()
+			e.emit("lw %s, %d(%s)", x, 4*r.Intn(16), pick(r, e.ar))
+			e.emit("%s %s, %s, %s", op3(), rd, x, sreg)
+			for i := r.Intn(3); i > 0; i-- {
+				e.emit("addi %s, %s, %d", pr, pr, r.Intn(9))
+			}
+			e.emit("addi %s, zero, %d", pr, 1+r.Intn(50))
+			if r.Intn(3) != 0 {
+				e.emit("%s %s, %s, %s", pick(r, []string{"add", "or", "xor", "sub"}), sreg, pr, pick(r, []string{"zero", pr}))
+			} else {
+				e.emit("%s %s, %s, %s", pick(r, []string{"add", "or", "xor"}), rd, pr, pick(r, []string{"zero", pr}))
+			}
 		default:
 			e.aluOp()
 		}
